@@ -19,7 +19,10 @@ FIRST_TRY = {'C01': True, 'C02': True, 'C03': False, 'C04': True, 'C05': False, 
              'C18e': True, 'C19e': True, 'C20e': False,
              'C01f': True, 'C02f': False, 'C03f': False, 'C04f': True, 'C05f': False, 'C06f': True, 'C07f': True, 'C08f': False, 'C09f': True,
              'C10f': True, 'C11f': True, 'C12f': False, 'C13f': True, 'C14f': False, 'C15f': True, 'C16f': False, 'C17f': False,
-             'C18f': True, 'C19f': False, 'C20f': True}
+             'C18f': True, 'C19f': False, 'C20f': True,
+             'C01g': True, 'C02g': False, 'C03g': False, 'C04g': True, 'C05g': False, 'C06g': True, 'C07g': True, 'C08g': False, 'C09g': True,
+             'C10g': False, 'C11g': True, 'C12g': True, 'C13g': False, 'C14g': True, 'C15g': True, 'C16g': False, 'C17g': False,
+             'C18g': True, 'C19g': False, 'C20g': True}
 REJECTED = {
     'C13c': 'not confirmed: the change only matters when dataReceived() is called again after the agent\'s own '
             'transport.loseConnection(); Twisted\'s TCP transport stops reading at that point (FileDescriptor.loseConnection -> '
@@ -58,6 +61,15 @@ STRENGTHEN = {
     'C16f': 'send cases got a hold-time dimension (180 / 3 / 0); on a session without timers an extra KEEPALIVE after the UPDATE is visible at once',
     'C17f': 'the REST round trip also runs on a session whose local speaker is configured without the 4-octet-AS capability and on an iBGP session with rib on',
     'C19f': 'sessions are now also ended by a peer NOTIFICATION, a header error and operator stop/start (the agent closes), not only by the peer closing TCP',
+    'C02g': 'the well-behaved peer of the cooperative phase may come back with another BGP identifier than the history used (caught by C05 since round 4)',
+    'C03g': 'caught by C05 and C02 from the start (negotiated hold time leaking into the next OPEN); C03 itself now optionally runs an earlier session with another negotiated hold time, ended by stop/start, version-error NOTIFICATION, header error or peer close, before the session it measures',
+    'C05g': 'configuration local_addr 0.0.0.0 with a simulated multi-homed host: successive connections leave through different local addresses (simnet egress_hosts), the BGP identifier must stay the one of the first',
+    'C08g': 'SR-TE policy names with non-ASCII text (refused by the unchanged encoder)',
+    'C10g': 'malformed UPDATEs padded to the maximum message size of 4096 octets (an extra optional transitive attribute or filler)',
+    'C13g': 'after a manual-start on an Established session the pending timers must be unchanged and the session must go on with its negotiated timers: KEEPALIVE every H/3 and still up three hold times later',
+    'C16g': 'sessions whose local speaker is configured without the 4-octet-AS capability while the peer advertises it (2-octet encoding on the wire)',
+    'C17g': 'community lists at the one-octet length edges: 15/16/31 extended, 31/32/63 standard, 10/11/21 large communities',
+    'C19g': 'the same prefix listed twice in one UPDATE; a version counter may not increase more often than routes changed',
     'C16c': 'send cases now run with [bgp] rib on or off and with 0-2 earlier announcements on the same session whose prefixes the checked request may withdraw or re-announce (a withdraw list mixing announced and never-announced prefixes is the trigger)',
     'C19c': 'new operation: one peer UPDATE that carries IPv4 withdrawn routes together with a flowspec / VPNv4 MP_REACH or MP_UNREACH attribute; both parts must be applied (patch rebased onto the current tree because a later fix touched the same lines; original kept as patch.orig.diff)',
     'C20c': 'the peer address as configured became a dimension (IPv4, lower-case IPv6, upper-case IPv6) and a handler callback that raises is now a violation (event not logged) instead of a harness error',
@@ -88,7 +100,7 @@ def main():
     with open(os.path.join(HERE, 'seeded', 'INDEX.md'), 'w') as f:
         f.write('# Seeded changes (written by fresh sub-agents that saw only the property text)\n\n'
                 'Round 1: one change per property (C01..C20). Round 2 (ids ending in b): a second, different change for all twenty\n'
-                'properties. Rounds 3, 4 and 5 (ids ending in c / d, e and f): further ones, the sub-agent being told what the earlier rounds had changed.\n'
+                'properties. Rounds 3 to 6 (ids ending in c / d, e, f and g): further ones, the sub-agent being told what the earlier rounds had changed.\n'
                 'Each directory holds patch.diff, the agent\'s demo.py, meta.json (incl. what the verifier ran) and\n'
                 'result.txt; `tools/try_seed.sh <id>` re-runs the confirmation on scratch copies of /repo.\n\n'
                 '| id | change | needs | caught on first run | final check result |\n|---|---|---|---|---|\n')
